@@ -54,7 +54,14 @@ PROFILES = {
         {"RUSTFLAGS": "-Zsanitizer=address -Cforce-frame-pointers=yes", "CC": "clang-14", "CFLAGS": "-fsanitize=address"},
         "target-asan/x86_64-unknown-linux-gnu/release/pmverif",
     ),
+    # Miri: the "build" is a no-op run that compiles everything; workers go through `cargo miri run`
+    "miri": (
+        ["cargo", "+nightly", "miri", "run", "--offline", "--target-dir", "target-miri", "--", "noop"],
+        {"MIRIFLAGS": "-Zmiri-disable-isolation -Zmiri-permissive-provenance"},
+        None,
+    ),
 }
+MIRI_RUNNER = ["cargo", "+nightly", "miri", "run", "--offline", "--target-dir", "target-miri", "--"]
 
 
 def build(profile):
@@ -65,7 +72,7 @@ def build(profile):
     t0 = time.time()
     p = subprocess.run(args, cwd=HARNESS, env=env, stdout=subprocess.PIPE, stderr=subprocess.STDOUT, text=True)
     log(f"[build:{profile}] exit={p.returncode} {time.time() - t0:.1f}s")
-    return p.returncode == 0, os.path.join(HARNESS, rel), p.stdout
+    return p.returncode == 0, (os.path.join(HARNESS, rel) if rel else None), p.stdout
 
 
 def limits(mem_gib, stack_mib=8):
@@ -90,7 +97,8 @@ class Worker:
         self.out = os.path.join(work, f"{phase['name']}_{shard}_{0 if resume_after is None else resume_after + 1}.json")
         self.progress = os.path.join(work, f"{phase['name']}_{shard}.progress")
         self.stderr_path = self.out + ".stderr"
-        cmd = list(phase.get("wrapper", [])) + [binary, check, "--tier", tier, "--seed", str(seed), "--shard", str(shard),
+        launcher = [binary] if binary else list(MIRI_RUNNER)
+        cmd = list(phase.get("wrapper", [])) + launcher + [check, "--tier", tier, "--seed", str(seed), "--shard", str(shard),
                                                "--nshards", str(nshards), "--out", self.out, "--progress", self.progress,
                                                "--profile", phase["profile"]]
         if phase.get("sub"):
@@ -103,6 +111,7 @@ class Worker:
             os.remove(self.progress)
         env = base_env()
         env["RUST_BACKTRACE"] = "0"
+        env.update(PROFILES.get(phase["profile"], (None, {}, None))[1] if phase["profile"] == "miri" else {})
         env.update(phase.get("env", {}))
         self.cmd = cmd
         self.t0 = time.time()
@@ -170,8 +179,11 @@ def run_phase(cfg, check, tier, seed, work, phase, agg, only=None):
             collect(w, agg, partial=True)
             tail = w.stderr_tail()
             sig = -rc if rc < 0 else None
-            asan = "AddressSanitizer" in tail or "LeakSanitizer" in tail
-            if rc == 3 or (sig is None and not asan and rc not in (101, 134, 139)):
+            asan = "AddressSanitizer" in tail or "LeakSanitizer" in tail or "Undefined Behavior" in tail
+            if "unsupported operation" in tail and not asan:
+                agg["inconclusive"].append(f"worker {w.shard}: Miri cannot execute this case ({case}): " + tail[-300:])
+                continue
+            if rc == 3 or (sig is None and not asan and rc not in (101, 134, 139)) or (rc == 1 and not asan):
                 agg["inconclusive"].append(f"worker {w.shard} exited with status {rc}: {tail[-300:]}")
                 continue
             if sig == signal.SIGKILL:
@@ -218,6 +230,11 @@ def classify_death(tail, sig, rc):
         return "asan report"
     if "leaksanitizer" in t:
         return "lsan: memory leak"
+    if "undefined behavior" in t:
+        for line in tail.splitlines():
+            if "Undefined Behavior" in line:
+                return "miri: " + line.strip()[:120]
+        return "miri: undefined behavior"
     if sig is not None:
         try:
             return "signal " + signal.Signals(sig).name
